@@ -35,7 +35,9 @@ UBSAN = ['-fsanitize=shift,signed-integer-overflow,integer-divide-by-zero,bounds
 
 
 def cxx_flags(defs=None, opt='-O1', ubsan=True, nofmt=False):
-    f = (UBSAN if ubsan else []) + (['-I', os.path.join(VERIF, 'ref', 'nofmt')] if nofmt else []) + ['-std=c++20', opt, '-Dconsteval=constexpr', '-Wno-keyword-macro', '-w',
+    # nofmt: False/True or a list of shadow-header directories under ref/ ('nofmt', 'nopool', ...) searched before the real tree
+    shadows = (['nofmt'] if nofmt is True else list(nofmt or []))
+    f = (UBSAN if ubsan else []) + [x for d in shadows for x in ('-I', os.path.join(VERIF, 'ref', d))] + ['-std=c++20', opt, '-Dconsteval=constexpr', '-Wno-keyword-macro', '-w',
          '-fno-vectorize', '-fno-slp-vectorize', '-fno-unroll-loops', '-fno-strict-aliasing',
          '-isystem', os.path.join(TOOL, 'compat'), '-I', TOOL, '-I', os.path.join(VERIF, 'ref'),
          '-I', SRC, '-I', build_config_dir(),
@@ -77,8 +79,8 @@ class H:
     def __init__(self, name, src, entry, link=(), variants=None, defines=None, unwind=None, unwindset=None,
                  cbmc=(), tier='quick', timeout=300, route='B', functions=(), stubs=(), assumptions=(),
                  bounds='', checks=(), opt='-O1', backends=('default',), diff_runs=40, override=(),
-                 objbits=None, keep=(), tvariants=None, memunwind=72, noop=(), nofmt=False, allow_nobody=(), csrc=(), slice_formula=True, include_dirs=(), global_ctors=False, ubsan=True):
-        self.global_ctors = global_ctors; self.ubsan = ubsan; self.memunwind = memunwind; self.noop = list(noop); self.nofmt = nofmt; self.allow_nobody = list(allow_nobody)
+                 objbits=None, keep=(), tvariants=None, memunwind=72, noop=(), nofmt=False, shadow=(), allow_nobody=(), fsarray=256, csrc=(), slice_formula=True, include_dirs=(), global_ctors=False, ubsan=True, witness_backends=()):
+        self.witness_backends = list(witness_backends); self.global_ctors = global_ctors; self.ubsan = ubsan; self.memunwind = memunwind; self.noop = list(noop); self.nofmt = (list(shadow) + (['nofmt'] if nofmt and 'nofmt' not in shadow else [])) or False; self.allow_nobody = list(allow_nobody); self.fsarray = fsarray
         self.name = name; self.src = src; self.entry = entry; self.link = list(link)
         self.variants = variants or [{}]; self.tvariants = tvariants  # thorough-tier variants (default: same)
         self.defines = defines or {}
@@ -158,6 +160,9 @@ def cbmc_base(h, objbits=None, variant=None):
          '--no-built-in-assertions' if False else '--verbosity', '6']
     if h.slice_formula:
         a.append('--slice-formula')
+    # libstdc++ node containers keep their value in raw aligned byte buffers ([N x i8]); CBMC only tracks arrays field-sensitively
+    # up to this size (default 64), beyond it every typed access becomes an unsimplified byte_extract and constants are lost
+    a += ['--max-field-sensitivity-array-size', str(getattr(h, 'fsarray', 256))]
     if h.unwind is not None:
         a += ['--unwind', str(h.unwind)]
     us = []
@@ -429,7 +434,24 @@ class Job:
             if h.route == 'B': self.build_B()
             else: self.build_A()
             r['build_s'] = round(time.time() - t0, 2)
-            win, allr = run_cbmc_sweep(h, self.cfiles, self.entry, self.work, extra=self.cdefs(), variant=self.variant)
+            wextra = None
+            if h.witness_backends:
+                # optional split (H(witness_backends=[...])): reachability/satisfiability witnesses are decided in a separate cbmc run on the given
+                # back ends (model finding), the real assertions in the main sweep (proof); used where one back end cannot do both (non-linear arithmetic)
+                rc0, pout, _, _ = run(['cbmc'] + self.cfiles + ['--function', self.entry] + cbmc_base(h, variant=self.variant) + self.cdefs() + ['--show-properties'], timeout=300, cwd=self.work)
+                plist = re.findall(r'^Property (\S+):\n[^\n]*\n  ([^\n]*)$', pout, re.M)
+                wids = [i for i, d in plist if d.startswith('WITNESS:')]; pids = [i for i, d in plist if not d.startswith('WITNESS:')]
+                if rc0 != 0 or not wids or not pids:
+                    raise Inconclusive('could not list properties for the witness/proof split: ' + pout[-800:])
+                wextra = self.cdefs() + [x for i in wids for x in ('--property', i)]
+            win, allr = run_cbmc_sweep(h, self.cfiles, self.entry, self.work, extra=self.cdefs() + ([x for i in pids for x in ('--property', i)] if wextra else []), variant=self.variant)
+            if wextra and win['verdict'] is not None:
+                hw = H(h.name, h.src, h.entry); hw.__dict__.update(h.__dict__); hw.backends = list(h.witness_backends)
+                wwin, _ = run_cbmc_sweep(hw, self.cfiles, self.entry, self.work, extra=wextra, variant=self.variant)
+                r['witness_backend'] = wwin['backend']; r['witness_wall_s'] = round(wwin['wall'], 2)
+                if wwin['verdict'] is None or '(error' in wwin['out']:
+                    raise Inconclusive('witness run gave no verdict after %.0fs: %s' % (wwin['wall'], wwin['out'][-800:]))
+                win = dict(win); win['props'] = list(win['props']) + [q for q in wwin['props'] if q[1].startswith('WITNESS:')]
             r['backend'] = win['backend']; r['solver_wall_s'] = round(win['wall'], 2); r['rss_kb'] = win['rss_kb']
             r['checker_cmd'] = win['cmd']
             r['backends_tried'] = {b: dict(rc=str(x['rc']), wall=round(x['wall'], 1), verdict=x['verdict']) for b, x in allr.items()}
